@@ -22,9 +22,9 @@ func init() {
 		Level: "exploration",
 		Cases: func(t string) int {
 			if t == "thorough" {
-				return 12000
+				return 24000
 			}
-			return 900
+			return 2100
 		},
 		Batch: func(t string) int { return 30 },
 		Floors: []string{"merges_checked", "inputs_0", "inputs_1", "inputs_2", "inputs_many", "consume_rows", "consume_row_readers", "consume_copy_rows", "consume_write_rowgroup", "nullable_key_merges", "null_keys_in_inputs", "desc_key_merges", "two_column_keys",
